@@ -70,7 +70,10 @@ def jobNetwork (j : Json) : Except String Json := do
     return Json.mkObj [
       ("det", plain .det), ("vol", plain .vol), ("stoch", plain .stoch), ("svol", plain .svol),
       ("sdet", safe .det), ("svolume", safe .vol), ("sstoch", safe .stoch), ("ssvol", safe .svol),
-      ("deriv", encList (derivative n U D props x p t))])
+      ("deriv", encList (derivative n U D props x p t)),
+      ("sderiv", match derivativeSafe n U D (reactantCols sidx rdefs) props x p t with
+        | some rows => encList rows
+        | none => Json.null)])
   return Json.mkObj (base ++ [("points", Json.arr outs.toArray)])
 
 def dumpQueue (q : DQ α) : Json :=
